@@ -4,15 +4,14 @@
    Daun,Dasch,Linbasex,Rbasex}.v (one state machine per caching module: module
    globals + basis directories; symbolic contents whose semantic reading
    `den_*` is given in the proofs files), model/BasisDir.v, model/CacheCommon.v
-   — all describing the code AFTER the fixes cbc57b0 .. 2e99c37.
+   — all describing the code AFTER the fixes cbc57b0 .. 2e99c37, 8cabaad, 6203711.
 
    `no_hazard init ops` now only states assumptions about the environment:
    basis directories are writable, good files found on disk are what a save of
    their name writes (damaged and wrong-shape files may be there), parameters
    are in the modelled domain (daun degree 0..3), and — rbasex — the
    quantities computed by abel.tools.vmi.Distributions are functions of
-   (parameters, weights content).  The single remaining exclusion that is a
-   defect is in linbasex (see C07_linbasex_size_test_refuted).
+   (parameters, weights content).  No exclusion that is a defect is left.
    `no_damage ops`: no damaged file is seeded (that case is C08).
    `all_agree init ops`: EVERY call of the history returns the same ideal
    numbers (or raises the same exception class) as the same call in a fresh
@@ -102,22 +101,19 @@ Example C07_daun_former_findings :
 Proof. split; [exact (proj2 CacheDaunProofs.daun3_no_disk_crop)|exact (proj2 CacheDaunProofs.failed_save_harmless)]. Qed.
 
 (* ---- linbasex ------------------------------------------------------------------------------------ *)
-(* _partial for ONE reason: `hazard` still excludes a memory hit on a basis made
-   for another image size (the memory test compares _basis.shape with
-   (2*cols, cols+1) only) — a remaining finding, refuted below *)
-Theorem C07_linbasex_history_independent_partial : forall ops,
+Theorem C07_linbasex_history_independent : forall ops,
   CacheLinbasex.no_hazard CacheLinbasex.init ops = true -> CacheLinbasex.no_damage ops = true ->
   CacheLinbasex.all_agree CacheLinbasex.init ops = true.
-Proof. exact CacheLinbasexProofs.history_independent_partial. Qed.
-Print Assumptions C07_linbasex_history_independent_partial.
+Proof. exact CacheLinbasexProofs.history_independent. Qed.
+Print Assumptions C07_linbasex_history_independent.
 
-Theorem C07_linbasex_size_test_refuted :
-  res_code (CacheLinbasex.last_result [CacheLinbasex.Call 3 CacheLinbasexProofs.five CacheLinbasexProofs.six 1 0 BNone]
-                                      (CacheLinbasex.Call 9 CacheLinbasexProofs.five CacheLinbasexProofs.six 1 0 BNone))
-    = exc_code EOther /\
-  res_code (CacheLinbasex.fresh (CacheLinbasex.Call 9 CacheLinbasexProofs.five CacheLinbasexProofs.six 1 0 BNone)) = 0.
-Proof. exact CacheLinbasexProofs.size_test_refuted. Qed.
-Print Assumptions C07_linbasex_size_test_refuted.
+(* the former size-test finding (fixed in 8cabaad) *)
+Example C07_linbasex_size_test_fixed :
+  CacheLinbasex.out_eqv
+    (CacheLinbasex.last_result [CacheLinbasex.Call 3 CacheLinbasexProofs.five CacheLinbasexProofs.six 1 0 BNone]
+                               (CacheLinbasex.Call 9 CacheLinbasexProofs.five CacheLinbasexProofs.six 1 0 BNone))
+    (CacheLinbasex.fresh (CacheLinbasex.Call 9 CacheLinbasexProofs.five CacheLinbasexProofs.six 1 0 BNone)) = true.
+Proof. exact CacheLinbasexProofs.size_test_fixed. Qed.
 
 (* the former key collisions (F4) are gone *)
 Example C07_linbasex_former_findings :
